@@ -82,6 +82,7 @@ def eval (F : Facts) : List String → Option String
     let t := tcpStallReturn F.tcpSingleDeadline T c
     some s!"err {if t ≤ T then "=T" else ">T"}"
   | ["lock-late", _] => some "first:err second:ok"
+  | ["lock-same-endpoint", _, _, _] => some "first:ok second:ok"
   | ["route-after-timeout", _] => some "first:err second:ok from-bound-port"
   | ["discover-during-call", _] => some "call:err discovered=1 from-bound-port"
   | ["discover-parallel", _, _] => some "all-found all=T"
